@@ -242,6 +242,9 @@ class PointsTo:
     # ----------------------------------------------------------- expressions
     def ev(self, func, node):
         if self.final:
+            if id(node) not in self.prog.owner:
+                # temporary node (e.g. an inlined copy): ids may be recycled, never cache
+                return frozenset(self._ev(func, node))
             k = (func.qualname, id(node))
             r = self._cache.get(k)
             if r is None:
